@@ -25,6 +25,9 @@ fn eval_text(text: &str) -> Value {
 pub fn alphabet() -> Vec<&'static str> {
   vec![
     "null",
+    // nulls produced by failed operations (they carry a diagnostic text, which is not part of the value)
+    "(1 < \"a\")",
+    "(1 / 0)",
     "true",
     "false",
     "-1",
@@ -394,7 +397,7 @@ pub fn run() {
   let vals: Vec<(&str, Value)> = texts.iter().map(|t| (*t, eval_text(t))).collect();
   let kinds: BTreeSet<&str> = vals.iter().map(|(_, v)| kind(v)).collect();
   for (t, v) in &vals {
-    if matches!(v, Value::Null(_)) && *t != "null" {
+    if matches!(v, Value::Null(_)) && *t != "null" && !t.starts_with('(') {
       // a value of the alphabet that the implementation cannot even build (e.g. a date it rejects): reported by
       // C14; here it simply acts as one more null
       run.sample(json!({"alphabet_value_is_null": t}));
